@@ -60,6 +60,8 @@ theorem takeFrame_encode (f : Frame) (h : f.WF) (rest : Bytes) :
   rw [leNat_le16 _ h2, splitN_append]; dsimp only
   rw [leNat_le16 _ h1, leNat_le32 _ h3, leNat_le32 _ h4, leNat_le32 _ h6]
 
+theorem takeFrame_nil : takeFrame [] = none := rfl
+
 /-- more input behind does not change a frame that was already complete -/
 theorem takeFrame_mono {p r : Bytes} {g : Frame} (x : Bytes) (h : takeFrame p = some (g, r)) :
     takeFrame (p ++ x) = some (g, r ++ x) := by
@@ -206,5 +208,462 @@ theorem pipeline_eq (P : Frame → Resp) (depth index : Nat) (issued : List Iss)
     pipeline P depth index issued st = synchronous P issued st := by
   unfold pipeline
   rw [fill_eq P depth issued [] st _ 0 0 (by simp)]; simp
+
+/-! ### what `harvest` yields, for every input whatsoever -/
+
+theorem harvestNext_yield {P : Frame → Resp} {i : Iss} {st st' : CSt} {r : Res}
+    (h : harvestNext P i st = .yield r st') : r.iss = i ∧ Matches i (r.ctx, r.rpy) := by
+  unfold harvestNext at h
+  split at h
+  · split at h
+    · rename_i c _ _ hm
+      simp only [HNext.yield.injEq] at h
+      obtain ⟨rfl, _⟩ := h
+      exact ⟨rfl, hm⟩
+    · simp at h
+  · simp at h
+  · simp at h
+
+/-- every yielded record passed the context/service assertion against the request it is yielded for -/
+theorem harvestAll_matches (P : Frame → Resp) (is : List Iss) (st : CSt) :
+    ∀ r ∈ (harvestAll P is st).1, Matches r.iss (r.ctx, r.rpy) := by
+  induction is generalizing st with
+  | nil => simp [harvestAll]
+  | cons i is ih =>
+    unfold harvestAll
+    cases hn : harvestNext P i st with
+    | yield r st' =>
+      intro x hx
+      simp only [List.mem_cons] at hx
+      rcases hx with rfl | hx
+      · have := harvestNext_yield hn
+        rw [this.1]; exact this.2
+      · exact ih st' x hx
+    | stop held st' => simp
+    | raise e st' => simp
+
+/-- the yielded records are for the issued requests, in order, without gaps: the `n`-th record is for
+the `n`-th request -/
+theorem harvestAll_own (P : Frame → Resp) (is : List Iss) (st : CSt) :
+    (harvestAll P is st).1.map (·.iss) = is.take (harvestAll P is st).1.length := by
+  induction is generalizing st with
+  | nil => simp [harvestAll]
+  | cons i is ih =>
+    unfold harvestAll
+    cases hn : harvestNext P i st with
+    | yield r st' =>
+      simp only [List.map_cons, List.length_cons, List.take_succ_cons, (harvestNext_yield hn).1]
+      exact congrArg _ (ih st')
+    | stop held st' => simp
+    | raise e st' => simp
+
+theorem harvestAll_length_le (P : Frame → Resp) (is : List Iss) (st : CSt) :
+    (harvestAll P is st).1.length ≤ is.length := by
+  have := congrArg List.length (harvestAll_own P is st)
+  simp only [List.length_map, List.length_take] at this; omega
+
+/-- `harvest` ends because the requests ran out exactly when it yielded one record per request -/
+theorem harvestAll_exhausted_iff (P : Frame → Resp) (is : List Iss) (st : CSt) :
+    (harvestAll P is st).2.1 = .exhausted ↔ (harvestAll P is st).1.length = is.length := by
+  induction is generalizing st with
+  | nil => simp [harvestAll]
+  | cons i is ih =>
+    unfold harvestAll
+    cases hn : harvestNext P i st with
+    | yield r st' => simpa using ih st'
+    | stop held st' => simp
+    | raise e st' => simp
+
+/-- how the consumer sees the end of `harvest` in (the repaired) `synchronous` and in `pipeline` -/
+def endOfH : HEnd → End
+  | .exhausted => .ok
+  | .stopped _ => .error .incomplete
+  | .raised e => .error e
+
+theorem synchronous_fst (P : Frame → Resp) (is : List Iss) (st : CSt) :
+    (synchronous P is st).1 = (harvestAll P is st).1 := by
+  unfold synchronous; rcases harvestAll P is st with ⟨rs, e, s⟩; cases e <;> rfl
+
+theorem synchronous_end (P : Frame → Resp) (is : List Iss) (st : CSt) :
+    (synchronous P is st).2.1 = endOfH (harvestAll P is st).2.1 := by
+  unfold synchronous; rcases harvestAll P is st with ⟨rs, e, s⟩; cases e <;> rfl
+
+/-! ### the segmentation of the input does not matter -/
+
+/-- the data blocks that arrive before the next EOF / silence -/
+def joinData : List Ev → Bytes
+  | .data bs :: evs => bs ++ joinData evs
+  | _ => []
+
+/-- the events from the next EOF / silence on -/
+def afterData : List Ev → List Ev
+  | .data _ :: evs => afterData evs
+  | evs => evs
+
+theorem joinData_afterData (evs : List Ev) : joinData (afterData evs) = [] := by
+  induction evs with
+  | nil => rfl
+  | cons ev evs ih => cases ev <;> simp [afterData, joinData, ih]
+
+theorem afterData_idem (evs : List Ev) : afterData (afterData evs) = afterData evs := by
+  induction evs with
+  | nil => rfl
+  | cons ev evs ih => cases ev <;> simp [afterData, ih]
+
+/-- all input that will arrive before the next EOF / silence, put in the buffer at once -/
+def flat (st : CSt) : CSt :=
+  { pend := st.pend, buf := st.buf ++ joinData st.evs, evs := afterData st.evs }
+
+theorem flat_idem (st : CSt) : flat (flat st) = flat st := by
+  simp [flat, joinData_afterData, afterData_idem]
+
+theorem await_nodata (b : Bytes) (evs : List Ev) (f : Frame) (rest : Bytes)
+    (h : takeFrame b = some (f, rest)) : await b evs = (.frame f, rest, evs) := by
+  cases evs <;> simp [await, h]
+
+theorem await_flat (b : Bytes) (evs : List Ev) :
+    (await b evs).1 = (await (b ++ joinData evs) (afterData evs)).1 ∧
+    (await b evs).2.1 ++ joinData (await b evs).2.2 =
+      (await (b ++ joinData evs) (afterData evs)).2.1 ++ joinData (await (b ++ joinData evs) (afterData evs)).2.2 ∧
+    afterData (await b evs).2.2 = afterData (await (b ++ joinData evs) (afterData evs)).2.2 ∧
+    ((await b evs).1 = .timeout → (await b evs).2.1 = (await (b ++ joinData evs) (afterData evs)).2.1) := by
+  induction evs generalizing b with
+  | nil => simp [joinData, afterData]
+  | cons ev evs ih =>
+    cases htf : takeFrame b with
+    | some fr =>
+      obtain ⟨f, rest⟩ := fr
+      rw [await_nodata b _ f rest htf,
+        await_nodata _ _ f _ (takeFrame_mono (joinData (ev :: evs)) htf)]
+      simp [joinData_afterData, afterData_idem]
+    | none =>
+      cases ev with
+      | data bs =>
+        have := ih (b ++ bs)
+        simp only [await, htf, joinData, afterData]
+        rw [← List.append_assoc]
+        exact this
+      | eof => simp [joinData, afterData]
+      | quiet => simp [joinData, afterData]
+
+/-- two outcomes of `collect` that differ only in how the remaining input is segmented -/
+def CNext.Rel : CNext → CNext → Prop
+  | .item c s, .item c' s' => c = c' ∧ flat s = flat s'
+  | .done h s, .done h' s' => h = h' ∧ flat s = flat s'
+  | .raise e s, .raise e' s' => e = e' ∧ flat s = flat s'
+  | _, _ => False
+
+theorem collectNext_flat (P : Frame → Resp) (st : CSt) :
+    CNext.Rel (collectNext P st) (collectNext P (flat st)) := by
+  obtain ⟨buf, evs, pend⟩ := st
+  cases pend with
+  | cons c cs => simp [collectNext, flat, CNext.Rel, joinData_afterData, afterData_idem]
+  | nil =>
+    obtain ⟨h1, h2, h3, h4⟩ := await_flat buf evs
+    simp only [collectNext, flat]
+    rcases ha : await buf evs with ⟨o, b1, e1⟩
+    rcases hb : await (buf ++ joinData evs) (afterData evs) with ⟨o', b2, e2⟩
+    rw [ha, hb] at h1 h2 h3 h4
+    simp only at h1 h2 h3 h4
+    subst h1
+    cases o with
+    | frame f =>
+      dsimp only
+      cases P f with
+      | replies ctx rs =>
+        cases rs with
+        | nil => simp [CNext.Rel, flat, h2, h3]
+        | cons r rs => simp [CNext.Rel, flat, h2, h3]
+      | error e => simp [CNext.Rel, flat, h2, h3]
+    | stop => simp [CNext.Rel, flat, h2, h3]
+    | timeout =>
+      have hb12 := h4 rfl
+      subst hb12
+      simp [CNext.Rel, flat, h3, List.append_cancel_left h2]
+    | rxerror => simp [CNext.Rel, flat, h2, h3]
+
+theorem CNext.Rel.symm {a b : CNext} (h : CNext.Rel a b) : CNext.Rel b a := by
+  cases a <;> cases b <;> simp_all [CNext.Rel]
+
+theorem CNext.Rel.trans {a b c : CNext} (h : CNext.Rel a b) (h' : CNext.Rel b c) : CNext.Rel a c := by
+  cases a <;> cases b <;> cases c <;> simp_all [CNext.Rel]
+
+theorem collectNext_congr (P : Frame → Resp) (st st' : CSt) (h : flat st = flat st') :
+    CNext.Rel (collectNext P st) (collectNext P st') := by
+  have a := collectNext_flat P st
+  have b := (collectNext_flat P st').symm
+  rw [h] at a
+  exact a.trans b
+
+/-- **What `harvest` yields and how it ends depends only on the bytes that arrive before each EOF /
+silence, not on the blocks they arrive in.** -/
+theorem harvestAll_congr (P : Frame → Resp) (is : List Iss) (st st' : CSt) (h : flat st = flat st') :
+    (harvestAll P is st).1 = (harvestAll P is st').1 ∧ (harvestAll P is st).2.1 = (harvestAll P is st').2.1 := by
+  induction is generalizing st st' with
+  | nil => simp [harvestAll]
+  | cons i is ih =>
+    have hc := collectNext_congr P st st' h
+    unfold harvestAll harvestNext
+    cases h1 : collectNext P st <;> cases h2 : collectNext P st' <;> rw [h1, h2] at hc <;>
+      simp only [CNext.Rel] at hc
+    · obtain ⟨rfl, hf⟩ := hc
+      dsimp only
+      by_cases hm : Matches i ‹Col›
+      · have := ih _ _ hf
+        simp [hm, this.1, this.2]
+      · simp [hm]
+    · obtain ⟨rfl, _⟩ := hc; simp
+    · obtain ⟨rfl, _⟩ := hc; simp
+
+/-! ### a reply stream cut at byte offset `k` -/
+
+/-- the reply stream of a peer: its frames, one after the other -/
+def stream (fs : List Frame) : Bytes := fs.flatMap encodeFrame
+
+/-- how many frames lie wholly inside the first `k` bytes of the stream -/
+def whole : Nat → List Frame → Nat
+  | _, [] => 0
+  | k, f :: fs => if (encodeFrame f).length ≤ k then whole (k - (encodeFrame f).length) fs + 1 else 0
+
+/-- how many bytes of the frame that the cut falls into were delivered (0: the cut is between frames,
+or behind the end) -/
+def leftover : Nat → List Frame → Nat
+  | _, [] => 0
+  | k, f :: fs => if (encodeFrame f).length ≤ k then leftover (k - (encodeFrame f).length) fs else k
+
+/-- the (context, reply) records `collect` makes of a frame -/
+def colsOf (P : Frame → Resp) (f : Frame) : List Col :=
+  match P f with
+  | .replies ctx rs => rs.map fun r => (ctx, r)
+  | .error _ => []
+
+/-- the event that ends the delivered prefix: the connection is closed, or stays silent -/
+def termEv (closed : Bool) : Ev := if closed then .eof else .quiet
+
+/-- how `harvest` ends when the replies run out before the requests do -/
+def cutEnd (closed : Bool) (left : Nat) : HEnd :=
+  if left = 0 then .stopped false else if closed then .raised .rxerror else .stopped true
+
+/-- the frame parses to at least one reply -/
+def hasReplies : Resp → Bool
+  | .replies _ (_ :: _) => true
+  | _ => false
+
+theorem hasReplies_iff {x : Resp} : hasReplies x = true ↔ ∃ ctx r rs, x = .replies ctx (r :: rs) := by
+  cases x with
+  | replies ctx rs => cases rs <;> simp [hasReplies]
+  | error e => simp [hasReplies]
+
+/-- every frame is well-formed and carries at least one reply -/
+def Served (P : Frame → Resp) (fs : List Frame) : Prop :=
+  ∀ f ∈ fs, f.WF ∧ hasReplies (P f) = true
+
+instance (P : Frame → Resp) (fs : List Frame) : Decidable (Served P fs) := by
+  unfold Served; infer_instance
+
+/-- reply `n` answers request `n` (context echoed, service = request | 0x80), as far as both exist -/
+def AllMatch (is : List Iss) (cs : List Col) : Prop := ∀ p ∈ is.zip cs, Matches p.1 p.2
+
+instance (is : List Iss) (cs : List Col) : Decidable (AllMatch is cs) := by
+  unfold AllMatch; infer_instance
+
+def mkRes (p : Iss × Col) : Res := { iss := p.1, ctx := p.2.1, rpy := p.2.2 }
+
+theorem take_stream_ge (f : Frame) (fs : List Frame) (k : Nat) (h : (encodeFrame f).length ≤ k) :
+    (stream (f :: fs)).take k = encodeFrame f ++ (stream fs).take (k - (encodeFrame f).length) := by
+  simp only [stream, List.flatMap_cons, List.take_append, List.take_of_length_le h]
+
+/-- `harvest` when no complete frame is buffered and the delivered prefix has ended -/
+theorem harvestNext_cut_none (P : Frame → Resp) (i : Iss) (b : Bytes) (closed : Bool)
+    (h : takeFrame b = none) :
+    ∃ st', harvestNext P i { pend := [], buf := b, evs := [termEv closed] } =
+      (if b.isEmpty then .stop false st' else if closed then .raise .rxerror st' else .stop true st') := by
+  cases closed <;> cases hb : b.isEmpty <;>
+    simp [harvestNext, collectNext, await, h, termEv, hb]
+
+theorem harvestAll_cut (P : Frame → Resp) (closed : Bool) (is : List Iss) :
+    ∀ (fs : List Frame) (k : Nat) (pend : List Col), Served P fs →
+      AllMatch is (pend ++ (fs.take (whole k fs)).flatMap (colsOf P)) →
+      (harvestAll P is { pend := pend, buf := (stream fs).take k, evs := [termEv closed] }).1 =
+        (is.zip (pend ++ (fs.take (whole k fs)).flatMap (colsOf P))).map mkRes ∧
+      (harvestAll P is { pend := pend, buf := (stream fs).take k, evs := [termEv closed] }).2.1 =
+        if is.length ≤ (pend ++ (fs.take (whole k fs)).flatMap (colsOf P)).length then .exhausted
+        else cutEnd closed (leftover k fs) := by
+  induction is with
+  | nil => intro fs k pend _ _; simp [harvestAll]
+  | cons i is ih =>
+    intro fs k pend hs hm
+    cases pend with
+    | cons c cs =>
+      have hmc : Matches i c := hm (i, c) (by simp)
+      have hm' : AllMatch is (cs ++ (fs.take (whole k fs)).flatMap (colsOf P)) := by
+        intro p hp; exact hm p (by simp [hp])
+      obtain ⟨h1, h2⟩ := ih fs k cs hs hm'
+      simp only [harvestAll, harvestNext, collectNext, hmc, if_true]
+      simp only [h1, h2, List.cons_append, List.zip_cons_cons, List.map_cons, List.length_cons,
+        Nat.add_le_add_iff_right, mkRes, and_self]
+    | nil =>
+      cases fs with
+      | nil =>
+        obtain ⟨st', hn⟩ := harvestNext_cut_none P i [] closed takeFrame_nil
+        simp only [stream, List.flatMap_nil, List.take_nil]
+        unfold harvestAll
+        rw [hn]
+        simp [leftover, cutEnd]
+      | cons f fs =>
+        obtain ⟨hwf, hrep⟩ := hs f (by simp)
+        obtain ⟨ctx, r, rs, hP⟩ := hasReplies_iff.mp hrep
+        have hs' : Served P fs := fun g hg => hs g (by simp [hg])
+        by_cases hk : (encodeFrame f).length ≤ k
+        · -- the frame is wholly inside the cut
+          have hw : whole k (f :: fs) = whole (k - (encodeFrame f).length) fs + 1 := by simp [whole, hk]
+          have hl : leftover k (f :: fs) = leftover (k - (encodeFrame f).length) fs := by simp [leftover, hk]
+          have hc : colsOf P f = (ctx, r) :: rs.map fun x => (ctx, x) := by simp [colsOf, hP]
+          have havail : ([] : List Col) ++ ((f :: fs).take (whole k (f :: fs))).flatMap (colsOf P) =
+              (ctx, r) :: ((rs.map fun x => (ctx, x)) ++
+                (fs.take (whole (k - (encodeFrame f).length) fs)).flatMap (colsOf P)) := by
+            rw [hw]; simp [hc]
+          rw [havail] at hm ⊢
+          rw [hl]
+          have hmc : Matches i (ctx, r) := hm (i, (ctx, r)) (by simp)
+          have hm' : AllMatch is ((rs.map fun x => (ctx, x)) ++
+              (fs.take (whole (k - (encodeFrame f).length) fs)).flatMap (colsOf P)) := by
+            intro p hp; exact hm p (by simp [hp])
+          obtain ⟨h1, h2⟩ := ih fs (k - (encodeFrame f).length) _ hs' hm'
+          have haw : await ((stream (f :: fs)).take k) [termEv closed] =
+              (.frame f, (stream fs).take (k - (encodeFrame f).length), [termEv closed]) := by
+            rw [take_stream_ge f fs k hk]
+            exact await_nodata _ _ f _ (takeFrame_encode f hwf _)
+          simp only [harvestAll, harvestNext, collectNext, haw, hP, hmc, if_true]
+          simp only [h1, h2, List.zip_cons_cons, List.map_cons, List.length_cons,
+            Nat.add_le_add_iff_right, mkRes, and_self]
+        · -- the cut falls inside this frame
+          have hw : whole k (f :: fs) = 0 := by simp [whole, hk]
+          have hl : leftover k (f :: fs) = k := by simp [leftover, hk]
+          have htf : takeFrame ((stream (f :: fs)).take k) = none := by
+            simp only [stream, List.flatMap_cons]
+            exact takeFrame_strict_prefix f hwf _ k (by omega)
+          have hlen : ((stream (f :: fs)).take k).length = k := by
+            simp only [stream, List.flatMap_cons, List.length_take, List.length_append]; omega
+          have hemp : ((stream (f :: fs)).take k).isEmpty = decide (k = 0) := by
+            rw [Bool.eq_iff_iff, List.isEmpty_iff_length_eq_zero, hlen]; simp
+          obtain ⟨st', hn⟩ := harvestNext_cut_none P i _ closed htf
+          rw [hw, hl]
+          unfold harvestAll
+          rw [hn, hemp]
+          by_cases hk0 : k = 0 <;> cases closed <;> simp [cutEnd, hk0]
+
+theorem mem_zip_append_left {α β : Type} (is : List α) (a b : List β) (p : α × β) (h : p ∈ is.zip a) :
+    p ∈ is.zip (a ++ b) := by
+  induction is generalizing a with
+  | nil => simp at h
+  | cons i is ih =>
+    cases a with
+    | nil => simp at h
+    | cons x a =>
+      simp only [List.cons_append, List.zip_cons_cons, List.mem_cons] at h ⊢
+      rcases h with h | h
+      · exact Or.inl h
+      · exact Or.inr (ih a h)
+
+theorem AllMatch_prefix {is : List Iss} {a b : List Col} (h : AllMatch is (a ++ b)) : AllMatch is a :=
+  fun p hp => h p (mem_zip_append_left is a b p hp)
+
+theorem flatMap_take_drop {α β : Type} (g : α → List β) (l : List α) (m : Nat) :
+    l.flatMap g = (l.take m).flatMap g ++ (l.drop m).flatMap g := by
+  rw [← List.flatMap_append, List.take_append_drop]
+
+/-- the delivered prefix, all of it buffered, then EOF or silence -/
+def cutState (fs : List Frame) (k : Nat) (closed : Bool) : CSt :=
+  { pend := [], buf := (stream fs).take k, evs := [termEv closed] }
+
+/-- how the result stream ends when the replies run out before the requests do -/
+def cutErr (closed : Bool) (left : Nat) : Err :=
+  if left = 0 then .incomplete else if closed then .rxerror else .incomplete
+
+theorem synchronous_cut (P : Frame → Resp) (closed : Bool) (is : List Iss) (fs : List Frame) (k : Nat)
+    (st : CSt) (hst : flat st = flat (cutState fs k closed)) (hs : Served P fs)
+    (hm : AllMatch is (fs.flatMap (colsOf P))) :
+    (synchronous P is st).1 = (is.zip ((fs.take (whole k fs)).flatMap (colsOf P))).map mkRes ∧
+    (synchronous P is st).2.1 =
+      if is.length ≤ ((fs.take (whole k fs)).flatMap (colsOf P)).length then .ok
+      else .error (cutErr closed (leftover k fs)) := by
+  have hm' : AllMatch is ([] ++ (fs.take (whole k fs)).flatMap (colsOf P)) := by
+    rw [flatMap_take_drop (colsOf P) fs (whole k fs)] at hm
+    simpa using AllMatch_prefix hm
+  obtain ⟨h1, h2⟩ := harvestAll_cut P closed is fs k [] hs hm'
+  obtain ⟨c1, c2⟩ := harvestAll_congr P is st (cutState fs k closed) hst
+  simp only [List.nil_append] at h1 h2
+  unfold cutState at c1 c2
+  rw [← c1] at h1; rw [← c2] at h2
+  unfold synchronous
+  rcases hh : harvestAll P is st with ⟨rs, e, st'⟩
+  rw [hh] at h1 h2
+  simp only at h1 h2
+  subst h1
+  refine ⟨by cases e <;> rfl, ?_⟩
+  by_cases hlt : is.length ≤ ((fs.take (whole k fs)).flatMap (colsOf P)).length
+  · rw [if_pos hlt] at h2 ⊢; subst h2; rfl
+  · rw [if_neg hlt] at h2 ⊢; subst h2
+    unfold cutEnd cutErr
+    by_cases hl0 : leftover k fs = 0
+    · simp [hl0]
+    · cases closed <;> simp [hl0]
+
+/-! ### the whole stream delivered -/
+
+theorem stream_cons (f : Frame) (fs : List Frame) : stream (f :: fs) = encodeFrame f ++ stream fs := by
+  simp [stream]
+
+theorem whole_total (fs : List Frame) (k : Nat) (h : (stream fs).length ≤ k) : whole k fs = fs.length := by
+  induction fs generalizing k with
+  | nil => rfl
+  | cons f fs ih =>
+    rw [stream_cons, List.length_append] at h
+    simp only [whole, show (encodeFrame f).length ≤ k by omega, if_true, List.length_cons]
+    rw [ih _ (by omega)]
+
+theorem leftover_total (fs : List Frame) (k : Nat) (h : (stream fs).length ≤ k) : leftover k fs = 0 := by
+  induction fs generalizing k with
+  | nil => rfl
+  | cons f fs ih =>
+    rw [stream_cons, List.length_append] at h
+    simp only [leftover, show (encodeFrame f).length ≤ k by omega, if_true]
+    exact ih _ (by omega)
+
+/-! ### `connector.__init__` on a cut stream -/
+
+/-- a successful Register reply -/
+def IsRegister (reg : Frame) : Prop := reg.WF ∧ reg.status = 0 ∧ reg.cmd = cmdRegister
+
+instance (reg : Frame) : Decidable (IsRegister reg) := by unfold IsRegister; infer_instance
+
+/-- Registering on a connection that delivers the first `k` bytes of `reg :: fs` (all at once): it fails
+when the cut is inside the Register reply, and otherwise leaves the rest of the prefix to the operations. -/
+theorem connect_cut (reg : Frame) (fs : List Frame) (k : Nat) (closed : Bool) (hr : IsRegister reg) :
+    connect [.data ((stream (reg :: fs)).take k), termEv closed] =
+      if (encodeFrame reg).length ≤ k then
+        .ok { pend := [], buf := (stream fs).take (k - (encodeFrame reg).length), evs := [termEv closed] }
+      else .error (if k = 0 then (if closed then .noenip else .noresponse)
+                   else (if closed then .rxerror else .partialHeld)) := by
+  obtain ⟨hwf, hst, hcmd⟩ := hr
+  by_cases hk : (encodeFrame reg).length ≤ k
+  · rw [take_stream_ge reg fs k hk]
+    have h1 : ∀ X : Bytes, await [] [.data X, termEv closed] = await X [termEv closed] := by
+      intro X; simp [await, takeFrame_nil]
+    unfold connect
+    rw [h1, await_nodata _ _ reg _ (takeFrame_encode reg hwf _)]
+    simp [hst, hcmd, hk]
+  · have htf : takeFrame ((stream (reg :: fs)).take k) = none := by
+      simp only [stream, List.flatMap_cons]
+      exact takeFrame_strict_prefix reg hwf _ k (by omega)
+    have hlen : ((stream (reg :: fs)).take k).length = k := by
+      simp only [stream, List.flatMap_cons, List.length_take, List.length_append]; omega
+    have hemp : ((stream (reg :: fs)).take k).isEmpty = decide (k = 0) := by
+      rw [Bool.eq_iff_iff, List.isEmpty_iff_length_eq_zero, hlen]; simp
+    have hne : encodeFrame reg ≠ [] := by
+      intro h; rw [h] at hk; simp at hk
+    by_cases hk0 : k = 0 <;> cases closed <;>
+      simp [connect, await, takeFrame_nil, htf, termEv, hemp, hk, hk0, hne]
 
 end Cpppo.ClientRx
